@@ -7,6 +7,7 @@ import (
 	"strings"
 
 	"golang.org/x/tools/go/cfg"
+	"golang.org/x/tools/go/packages"
 
 	"verif/internal/core"
 	"verif/internal/flow"
@@ -176,6 +177,11 @@ func muxRolesOf(c *core.Ctx, rule string) *muxRoles {
 		if muxIsLRU(v.Type()) {
 			return true
 		}
+		// an interface in front of the single implementation: every value the package stores
+		// in the field is a golang-lru cache (or nil)
+		if muxIfaceOnlyLRU(pkg, v) {
+			return true
+		}
 		// a same-package wrapper type around an lru cache
 		n := muxDerefNamed(v.Type())
 		return n != nil && n.Obj().Pkg() == pkg.Types && len(muxStructFields(n, func(w *types.Var) bool { return muxIsLRU(w.Type()) })) > 0
@@ -193,6 +199,69 @@ func muxRolesOf(c *core.Ctx, rule string) *muxRoles {
 		ro.limitF = muxFieldInitFrom(c, ro.pathT, muxOneField(pt, "ClientMaxBodySize", func(v *types.Var) bool { return v.Name() == "ClientMaxBodySize" }))
 	}
 	return ro
+}
+
+// muxIfaceOnlyLRU: v is a field of interface type (with Get and Add) and every store to it in the
+// package (assignment or composite-literal entry) has a golang-lru cache (or nil) as its static type.
+func muxIfaceOnlyLRU(pkg *packages.Package, v *types.Var) bool {
+	it, ok := v.Type().Underlying().(*types.Interface)
+	if !ok {
+		return false
+	}
+	has := map[string]bool{}
+	for i := 0; i < it.NumMethods(); i++ {
+		has[it.Method(i).Name()] = true
+	}
+	if !has["Get"] || !has["Add"] {
+		return false
+	}
+	stores, good := 0, true
+	okVal := func(e ast.Expr) {
+		stores++
+		tv, ok := pkg.TypesInfo.Types[e]
+		if !ok || !(tv.IsNil() || (tv.Type != nil && muxIsLRU(tv.Type))) {
+			good = false
+		}
+	}
+	for _, file := range pkg.Syntax {
+		ast.Inspect(file, func(n ast.Node) bool {
+			switch x := n.(type) {
+			case *ast.AssignStmt:
+				for i, l := range x.Lhs {
+					sel, ok := ast.Unparen(l).(*ast.SelectorExpr)
+					if !ok {
+						continue
+					}
+					if sl := pkg.TypesInfo.Selections[sel]; sl == nil || sl.Obj() != types.Object(v) {
+						continue
+					}
+					if len(x.Rhs) == len(x.Lhs) {
+						okVal(x.Rhs[i])
+					} else {
+						stores++
+						good = false
+					}
+				}
+			case *ast.UnaryExpr:
+				// &x.cache: the field may be written through the pointer
+				if sel, ok := ast.Unparen(x.X).(*ast.SelectorExpr); ok && x.Op == token.AND {
+					if sl := pkg.TypesInfo.Selections[sel]; sl != nil && sl.Obj() == types.Object(v) {
+						good = false
+					}
+				}
+			case *ast.CompositeLit:
+				for _, el := range x.Elts {
+					if kv, ok := el.(*ast.KeyValueExpr); ok {
+						if k, ok := kv.Key.(*ast.Ident); ok && pkg.TypesInfo.Uses[k] == types.Object(v) {
+							okVal(kv.Value)
+						}
+					}
+				}
+			}
+			return true
+		})
+	}
+	return good && stores > 0
 }
 
 // muxIsLRU: t is (a pointer to) a cache type of hashicorp/golang-lru.
@@ -1272,6 +1341,9 @@ func (ro *muxRoles) cacheMethodCall(info *types.Info, call *ast.CallExpr, name s
 		return false
 	}
 	tv, ok := info.Types[sel.X]
+	if ok && tv.Type != nil && ro.cacheF != nil && types.IsInterface(ro.cacheF.Type()) && types.Identical(tv.Type, ro.cacheF.Type()) {
+		return true // the interface the (only ever lru-valued) cache field is declared with
+	}
 	return ok && tv.Type != nil && muxIsLRU(tv.Type)
 }
 
@@ -1575,7 +1647,36 @@ func analyzeSearch(c *core.Ctx, rule string) *searchInfo {
 				}
 			}
 		},
+		OnInline: func(st *flow.State, ev *flow.InlineEvent) {
+			// a failure route handed to a helper (cacheFailure(req, methodNotAllowed, flags)): the
+			// parameter holds that package-level route while the helper runs
+			if !ev.Enter {
+				return
+			}
+			for i, p := range ev.Params {
+				if p == nil || i >= len(ev.Args) {
+					continue
+				}
+				s.clearRouteVar(st, p)
+				aid := muxIdentOf(ev.Args[i])
+				if aid == nil {
+					continue
+				}
+				if code := s.routeCodes[info.Uses[aid]]; code != "" {
+					st.Set("ev:rc:"+f.Render(p)+"="+code, flow.True)
+				} else if code := s.codeByFact(st, aid); code != "" && f.Render(aid) != f.Render(p) {
+					st.Set("ev:rc:"+f.Render(p)+"="+code, flow.True)
+				}
+			}
+		},
 		OnNode: func(st *flow.State, n ast.Node) {
+			if as, ok := n.(*ast.AssignStmt); ok {
+				for _, l := range as.Lhs {
+					if id, isID := ast.Unparen(l).(*ast.Ident); isID {
+						s.clearRouteVar(st, id)
+					}
+				}
+			}
 			if as, ok := n.(*ast.AssignStmt); ok && len(s.zeroFlags) > 0 {
 				for _, l := range as.Lhs {
 					if sel, ok := ast.Unparen(l).(*ast.SelectorExpr); ok {
@@ -1638,6 +1739,16 @@ func analyzeSearch(c *core.Ctx, rule string) *searchInfo {
 		AfterAssume: func(st *flow.State, cond ast.Expr, outcome bool) {
 			if s.guessedFlag(st) {
 				st.Set("ev:infeasible", flow.True)
+			}
+			if st.Is(evHit, flow.True) {
+				if p, d := s.chainPassedNow(st); p || d {
+					if p {
+						st.Set("ev:chain:passed", flow.True)
+					}
+					if d {
+						st.Set("ev:chain:denied", flow.True)
+					}
+				}
 			}
 			if s.val(st, s.headerMatch) != flow.Unknown {
 				st.Set(evHdep, flow.True)
@@ -2043,8 +2154,21 @@ func (s *searchInfo) codeByFact(st *flow.State, e ast.Expr) string {
 		if st.Is("eq:"+s.f.Render(id)+"==@"+g.Pkg().Path()+"."+g.Name(), flow.True) {
 			return code
 		}
+		if st.Is("ev:rc:"+s.f.Render(id)+"="+code, flow.True) {
+			return code
+		}
 	}
 	return ""
+}
+
+// clearRouteVar forgets which failure route a variable was bound to (it is assigned / bound anew).
+func (s *searchInfo) clearRouteVar(st *flow.State, id *ast.Ident) {
+	pre := "ev:rc:" + s.f.Render(id) + "="
+	for _, fact := range st.Facts() {
+		if strings.HasPrefix(fact, pre) {
+			st.Set(fact[:len(fact)-2], flow.Unknown)
+		}
+	}
 }
 
 // muxRetExpr returns the expression whose value an exit returns (through inlined tail calls and
@@ -2109,6 +2233,14 @@ func (s *searchInfo) cachedCodeZero(st *flow.State) flow.Val {
 // chainPassed reports whether st has re-validated the cached path's filter chain: chain.Allow
 // returned true, or the chain is nil.
 func (s *searchInfo) chainPassed(st *flow.State) (passed, denied bool) {
+	// what was established before the exit: with a named result the facts about the cached
+	// route's variable die when `return forbidden` assigns it
+	passed, denied = st.Is("ev:chain:passed", flow.True), st.Is("ev:chain:denied", flow.True)
+	p2, d2 := s.chainPassedNow(st)
+	return passed || p2, denied || d2
+}
+
+func (s *searchInfo) chainPassedNow(st *flow.State) (passed, denied bool) {
 	for _, cw := range s.chainWrap {
 		if !s.chainWrapOfCached(cw) {
 			continue
